@@ -2,6 +2,7 @@ import GwModel.PlanQueue
 import GwModel.Select
 import GwModel.Gen.Facts
 import GwModel.PlanTotal
+import GwModel.PlanFuel
 /-! # C08 — Planning is total: always returns, with a plan for every valid query
 
 Model level: (1) step discovery through the queue discipline the source uses (extracted on every run)
@@ -62,6 +63,28 @@ theorem planning_fails_only_for_its_input {env : Pl.Env} (hr : Pl.RoutesNonempty
   | noLocalFragment n => exact absurd this (by simp [Pl.Benign])
   | noWrapDefn => exact absurd this (by simp [Pl.Benign])
   | crash s => exact absurd this (by simp [Pl.Benign])
+
+/-- **`extractSelection` is total on selections without named fragments**: with more fuel than the nesting depth
+    of the selection (fields and inline fragments), and a routing table without empty entries, it ends with the
+    step's selection or with "a field has no location" — never out of fuel, never with an internal error. -/
+theorem extract_selection_is_total {env : Pl.Env} (hr : Pl.RoutesNonempty env) (fuel : Nat) (cfg : Pl.Cfg) (st : Pl.St)
+    (hns : Pl.noSpreadL cfg.sel = true) (hd : Pl.depthL cfg.sel < fuel) :
+    (∃ sel st', Pl.extract env fuel cfg st = .ok (sel, st')) ∨ ∃ t f, Pl.extract env fuel cfg st = .error (.noRoute t f) := by
+  cases h : Pl.extract env fuel cfg st with
+  | ok r => exact Or.inl ⟨r.1, r.2, rfl⟩
+  | error e =>
+    right
+    have hb := Pl.extract_error_benign hr fuel cfg st e h
+    have hf := Pl.extract_fuel env fuel cfg st hns hd
+    cases e with
+    | noRoute t f => exact ⟨t, f, rfl⟩
+    | noFragment n =>
+      -- a selection without spreads never looks a fragment up
+      exact absurd h (Pl.extract_no_fragment_error env fuel cfg st hns n)
+    | fuel => exact absurd h hf
+    | noLocalFragment n => exact absurd hb (by simp [Pl.Benign])
+    | noWrapDefn => exact absurd hb (by simp [Pl.Benign])
+    | crash s => exact absurd hb (by simp [Pl.Benign])
 
 /-- non-vacuity: an unroutable field is reported as such, and a routable document under fragments and
     wrappers plans -/
